@@ -22,11 +22,13 @@ for i in range(1, 21):
         out.append("*Last run*: %d rule instances (%s), %d functions, floors %s.\n" % (
             c["evaluations"], ", ".join("%s %d" % kv for kv in sorted(c["instances_per_rule"].items())), c["functions_analysed"],
             ", ".join("%s>=%d" % (k, v["floor"]) for k, v in sorted(c.get("floors", {}).items())) or "none"))
-open("/verif/.scratch/design_sec3.md", "w").write("\n".join(out))
+sec3 = "\n".join(out)
 rows = []
 for f in sorted(glob.glob("/verif/evidence/C*.json")):
     e = json.load(open(f))
     for r in e["coverage"].get("self_test", {}).get("results", []):
+        if r.get("expected") == "quiet" or r["seed"].startswith("benign"):
+            continue
         meta = {}
         mp = "/verif/seeded/%s/meta.json" % r["seed"]
         if os.path.exists(mp):
@@ -41,5 +43,16 @@ for f in sorted(glob.glob("/verif/evidence/C*.json")):
                     break
         rows.append("| %s | %s | %s | %s |" % (r["seed"], "yes" if r.get("detected") else ("n/a" if not r.get("applied") else "**no**"),
                                                ", ".join("`%s`" % k.split("/", 1)[1] for k in (r.get("reported") or [])[:3]), what.replace("|", "/")))
-open("/verif/.scratch/design_appA.md", "w").write("| change | reported | by rule instance(s) (first three) | what the change does |\n|---|---|---|---|\n" + "\n".join(rows) + "\n")
+appA = "| change | reported | by rule instance(s) (first three) | what the change does |\n|---|---|---|---|\n" + "\n".join(rows) + "\n"
+import re
+doc = open("/verif/DESIGN.md").read()
+def put(doc, name, body):
+    a = "<!-- BEGIN GENERATED: %s -->\n" % name
+    b = "<!-- END GENERATED: %s -->" % name
+    i, j = doc.index(a) + len(a), doc.index(b)
+    return doc[:i] + body.rstrip("\n") + "\n" + doc[j:]
+doc = put(doc, "section3", sec3)
+if rows:
+    doc = put(doc, "appendixA", appA)
+open("/verif/DESIGN.md", "w").write(doc)
 print(len(out), len(rows))
